@@ -307,6 +307,27 @@ def check_frames(ctx, P):
     parts = sorted(show(x) for x in flatten(lb, "Add")) if lb else None
     ctx.ob("b.formats", "length-byte", parts == sorted(["3", "pdu_len", "is_some(self.dsap)", "is_some(self.ssap)"]),
            "LE must be pdu_len + [DSAP] + [SSAP] + 3, found " + str(parts), ser.loc(0))
+    # capacity: the only frame the serializer may refuse is one that does not fit the SD2 length octet (LE <= 249); any tighter
+    # assertion (on the PDU length alone, say) makes frames the format allows - and the reader accepts - unencodable
+    npan = 0
+    for b, c in call_sites(ser):
+        cal = c.get("callee") or ""
+        mac = ser.blocks[b].term.get("mac") or []
+        if not cal.startswith(("core::panicking::", "std::rt::")) or any("debug_assert" in m_ for m_ in mac):
+            continue
+        if not any(m_.startswith("assert") for m_ in mac):
+            continue
+        npan += 1
+        S = g.at(b)
+        def le_limit(k):
+            # `assert!(LE <= 249)` panics when 249 < LE
+            if k[0] != "cmp" or k[1] != "lt" or strip_casts(k[2]) != ("const", FR["le_max"]):
+                return False
+            ks = show(simplify(k[3]))
+            return "pdu_len" in ks and "Add" in ks
+        ok, w = M.all_disj(S, le_limit, {True})
+        ctx.ob("b.formats", "writer-capacity#%d" % npan, ok,
+               "the serializer refuses (asserts) for a reason other than LE > %d: frames the format allows become unencodable: %s" % (FR["le_max"], w), ser.loc(b))
     # telegram_len
     gt = GuardAnalysis(tl, P)
     tlt = {}
